@@ -18,7 +18,7 @@ import os
 import pathlib
 import typing
 
-from vf.core import Bag, Ctx
+from vf.core import Bag, Ctx, HarnessError
 
 ALPHABET = ["a", " ", "\t", "\r", "\n"]
 
@@ -30,6 +30,11 @@ PPS_SPECS = [
     ("limit2", [("limit", 2)]),
     ("trim+limit1", [("trim",), ("limit", 1)]),
     ("limit1+trim", [("limit", 1), ("trim",)]),
+    # several processors of one class, differently parameterised, in both orders
+    ("limit0+limit2", [("limit", 0), ("limit", 2)]),
+    ("limit2+limit0", [("limit", 2), ("limit", 0)]),
+    ("limit2+trim+limit1", [("limit", 2), ("trim",), ("limit", 1)]),
+    ("trim+trim", [("trim",), ("trim",)]),
 ]
 
 
@@ -102,6 +107,93 @@ def run_copy(text: str, spec: typing.List[tuple], tmp: pathlib.Path) -> str:
     object.__new__(SupportGenerator)._copy_header_using_line_pps(src, dst, make_pps(spec))
     with open(dst, "r", encoding="utf-8", newline="") as f:
         return f.read()
+
+
+class _Fault(Exception):
+    pass
+
+
+def _faulting(chunks: typing.Sequence[str], k: int) -> typing.Iterator[str]:
+    """The chunk iterator of a template that raises after its first k chunks."""
+    for c in chunks[:k]:
+        yield c
+    raise _Fault()
+
+
+def run_impl_after_fault(chunks: typing.Sequence[str], k: int, spec: typing.List[tuple], text: str) -> str:
+    """History [a run of `chunks` that is aborted after k chunks ; a complete one-chunk run of `text`] -> output of the
+    second run (fresh processor objects for both, as for two generators in one process)."""
+    from nunavut.jinja import CodeGenerator
+
+    try:
+        CodeGenerator._generate_with_line_buffer(io.StringIO(), _faulting(chunks, k), make_pps(spec))
+    except _Fault:
+        pass
+    else:
+        raise HarnessError("the faulting chunk iterator did not abort the run")
+    return run_impl([text], spec)
+
+
+# ---------------------------------------------------------------- end-to-end driver: a real DSDLCodeGenerator
+E2E_TEMPLATE = "{% for c in chunks %}{{ c }}{% endfor %}"
+
+
+class _Bomb:
+    """A template value whose rendering raises: the run is refused in the middle of a file."""
+
+    def __str__(self) -> str:
+        raise _Fault()
+
+    __html__ = __str__
+
+
+class E2E:
+    """One real generator per processor list (target language cpp: its configuration adds no processors of its own);
+    the template renders the chunk list handed over through a global, one chunk per list element."""
+
+    def __init__(self, scratch: pathlib.Path) -> None:
+        import pydsdl
+        from nunavut import build_namespace_tree
+        from nunavut.lang import LanguageContextBuilder
+
+        self.base = scratch
+        (self.base / "in" / "x").mkdir(parents=True, exist_ok=True)
+        (self.base / "in" / "x" / "A.1.0.dsdl").write_text("uint8 v\n@sealed\n")
+        (self.base / "tpl").mkdir(exist_ok=True)
+        with open(self.base / "tpl" / "Any.j2", "w", encoding="utf-8", newline="") as f:
+            f.write(E2E_TEMPLATE)
+        self.types = pydsdl.read_namespace(str(self.base / "in" / "x"), [])
+        self.lctx = LanguageContextBuilder(include_experimental_languages=True).set_target_language("cpp").create()
+        self.build = build_namespace_tree
+        self.gens: typing.Dict[str, tuple] = {}
+        self.n = 0
+
+    def generator(self, name: str, spec: typing.List[tuple], fresh: bool = False) -> tuple:
+        from nunavut.jinja import DSDLCodeGenerator
+
+        if fresh or name not in self.gens:
+            self.n += 1
+            out = self.base / f"out{self.n}"
+            ns = self.build(self.types, str(self.base / "in" / "x"), str(out), self.lctx)
+            holder: typing.List[typing.Any] = []
+            g = DSDLCodeGenerator(ns, templates_dir=self.base / "tpl", additional_globals={"chunks": holder},
+                                  post_processors=make_pps(spec) if spec else None)
+            (path,) = [p for _, p in ns.get_all_datatypes()]
+            entry = (g, holder, pathlib.Path(path))
+            if fresh:
+                return entry
+            self.gens[name] = entry
+        return self.gens[name]
+
+    def run(self, entry: tuple, chunks: typing.Sequence[typing.Any]) -> typing.Optional[str]:
+        g, holder, path = entry
+        holder[:] = list(chunks)
+        try:
+            g.generate_all()
+        except _Fault:
+            return None
+        with open(path, "r", encoding="utf-8", newline="") as f:
+            return f.read()
 
 
 def schedules(text: str, with_empty: bool) -> typing.Iterator[typing.List[str]]:
@@ -189,6 +281,75 @@ def _work(job: typing.Tuple[typing.List[str], bool, bool, str]) -> dict:
     return {"evals": evals, "bag": bag, "outcomes": outcomes, "nontrivial": nontrivial, "texts": len(texts)}
 
 
+PROBES = ["a", "\n", " a \n\n\nb", "\r\n a"]
+
+
+def _work_hist(job: typing.Tuple[typing.List[str], bool, str]) -> dict:
+    """Histories: [a run that is aborted after k chunks ; a complete run] on the line-buffer routine, and runs of one
+    real generator object per processor list (every cut schedule, aborted renderings in between)."""
+    texts, do_e2e, scratch = job
+    bag = Bag()
+    evals = nontrivial = faults = e2e_runs = 0
+    outcomes = set()
+    e2e = None
+    if do_e2e:
+        tmp = pathlib.Path(scratch) / f"e2e{os.getpid()}"
+        tmp.mkdir(parents=True, exist_ok=True)
+        e2e = E2E(tmp)
+    for name, spec in PPS_SPECS:
+        probe_ref = {t: ref_apply(t, spec) for t in PROBES}
+        entry = e2e.generator(name, spec) if e2e else None
+        for text in texts:
+            ref = ref_apply(text, spec)
+            for chunks in schedules(text, False):
+                # ---- direct: abort after k chunks, then a complete run of a probe text
+                if spec:
+                    for k in range(len(chunks)):
+                        probe = PROBES[(len(text) + k) % len(PROBES)]
+                        got = run_impl_after_fault(chunks, k, spec, probe)
+                        evals += 1
+                        faults += 1
+                        if "".join(chunks[:k]) and not "".join(chunks[:k]).endswith("\n"):
+                            nontrivial += 1  # the aborted run stopped inside a line
+                        if got != probe_ref[probe]:
+                            bag.add(
+                                {"kind": "aborted_run_leaks", "pps": name, "driver": "line_buffer"},
+                                {"mode": "fault", "text": text, "chunks": list(chunks), "k": k, "probe": probe, "pps": name},
+                                f"after a run of {list(chunks)!r} aborted behind chunk {k}, {probe!r} is written as {got!r} instead of {probe_ref[probe]!r} [{name}]",
+                            )
+                # ---- end to end: the same generator object renders this schedule
+                if entry is not None:
+                    got = e2e.run(entry, chunks)
+                    evals += 1
+                    e2e_runs += 1
+                    outcomes.add(hash((name, got)) & 0xFFFFFFFF)
+                    if got != ref:
+                        bag.add(
+                            {"kind": "generator_output_mismatch", "pps": name, "feature": classify_cut(text, chunks) if len(chunks) > 1 else "one_chunk"},
+                            {"mode": "e2e", "text": text, "chunks": list(chunks), "pps": name},
+                            f"DSDLCodeGenerator with processors [{name}] writes {got!r} for template output {list(chunks)!r}; line-by-line reference {ref!r}",
+                        )
+            # ---- end to end: a rendering refused inside the file, then a complete one (same generator; new generator)
+            if entry is not None and text:
+                for k in (0, len(text) // 2, len(text)):
+                    aborted = [text[:k], _Bomb(), text[k:]]
+                    if e2e.run(entry, aborted) is not None:
+                        raise HarnessError("the refused rendering completed")
+                    probe = PROBES[(len(text) + k) % len(PROBES)]
+                    for fresh in (False, True) if k == len(text) // 2 and len(text) <= 2 else (False,):
+                        got = e2e.run(e2e.generator(name, spec, fresh=True) if fresh else entry, [probe])
+                        evals += 1
+                        faults += 1
+                        if got != probe_ref[probe]:
+                            bag.add(
+                                {"kind": "aborted_run_leaks", "pps": name, "driver": "generator" + ("_new_object" if fresh else "_same_object")},
+                                {"mode": "e2e_fault", "text": text, "k": k, "probe": probe, "pps": name, "fresh": fresh},
+                                f"after a rendering of {text!r} refused behind character {k}, the "
+                                f"{'next' if fresh else 'same'} generator writes {probe!r} as {got!r} instead of {probe_ref[probe]!r} [{name}]",
+                            )
+    return {"evals": evals, "bag": bag, "outcomes": outcomes, "nontrivial": nontrivial, "texts": len(texts), "faults": faults, "e2e": e2e_runs}
+
+
 def all_texts(max_len: int, alphabet: typing.List[str]) -> typing.Iterator[str]:
     for n in range(0, max_len + 1):
         for t in itertools.product(alphabet, repeat=n):
@@ -220,6 +381,22 @@ def run(ctx: Ctx) -> int:
     big = ["a" * pos + tail for pos in range(bs - 4, bs + 3) for tail in ("\r\n", " \r\nb", "\r\n\r\n\r\nb", "\r", " \t\r\n\n\n\nb ")]
     jobs.append((big, False, True, str(ctx.scratch) + "#copyonly"))
     results = ctx.pool_map(_work, jobs)
+    # histories: aborted runs on the line buffer (texts len <= 4, every cut, every abort point) and real generator objects
+    hist_len = 4
+    e2e_len = 4 if ctx.thorough else 3
+    hjobs = []
+    short = list(all_texts(e2e_len, ALPHABET))
+    for i in range(0, len(short), 40):
+        hjobs.append((short[i : i + 40], True, str(ctx.scratch)))
+    rest = [t for t in all_texts(hist_len, ALPHABET) if len(t) > e2e_len]
+    for i in range(0, len(rest), 80):
+        hjobs.append((rest[i : i + 80], False, str(ctx.scratch)))
+    hres = ctx.pool_map(_work_hist, hjobs)
+    faults = sum(r["faults"] for r in hres)
+    e2e_runs = sum(r["e2e"] for r in hres)
+    if faults == 0 or e2e_runs == 0:
+        raise HarnessError("no aborted run / no generator run was explored")
+    results = results + hres
     evals = sum(r["evals"] for r in results)
     outcomes = set()
     for r in results:
@@ -231,7 +408,7 @@ def run(ctx: Ctx) -> int:
         {"text": "a \r\n\nb", "schedule": ["a \r", "\n\nb"], "pps": "trim"},
         {"text": "\n\n\n", "schedule": ["\n", "", "\n\n"], "pps": "limit1"},
     ]
-    ctx.stats.update(texts=ntexts, ext_space=ext_total, ext_explored=len(ext))
+    ctx.stats.update(texts=ntexts, ext_space=ext_total, ext_explored=len(ext), aborted_runs=faults, generator_runs=e2e_runs)
     cov = {
         "states": ntexts * len(PPS_SPECS),
         "transitions": evals,
@@ -244,7 +421,9 @@ def run(ctx: Ctx) -> int:
         "differs from the input text",
         "bound_completed": f"all texts len<={core_len} over {ALPHABET!r} x all 2^(n-1) cuts x one empty chunk at every "
         f"position x {len(PPS_SPECS)} processor lists; texts of len {core_len + 1}..{full_len}: "
-        f"{len(ext)}/{ext_total} x all cuts",
+        f"{len(ext)}/{ext_total} x all cuts; histories [run aborted behind chunk k ; complete run]: texts len<={hist_len} x all cuts x every k "
+        f"x {len(PPS_SPECS) - 1} lists ({faults} aborted runs); real DSDLCodeGenerator objects (one per processor list, reused for every "
+        f"run, + new ones after refused renderings): texts len<={e2e_len} x all cuts x {len(PPS_SPECS)} lists ({e2e_runs} generator runs)",
         "exhaustive": bool(ctx.thorough),
     }
     return ctx.finish(
@@ -252,7 +431,9 @@ def run(ctx: Ctx) -> int:
         cov,
         [
             "alphabet {a,space,TAB,CR,LF} (+ e-acute and 3 unicode-whitespace texts) stands for all characters",
-            "fresh processor objects per execution (state carried across files is C10's subject)",
+            "fresh processor objects per execution of the line-buffer routine; the generator-object runs keep one processor list "
+            "per generator, reset by the generator before each file (state carried across files of real types is C10's subject)",
+            "generator-object runs use target language cpp (its configuration adds no processors to the supplied list)",
         ],
         min_outcomes=("distinct_outcomes", 50),
     )
@@ -267,6 +448,26 @@ def replay(ctx: Ctx, case: dict) -> int:
         got = run_copy(case["text"], spec, tmp)
         print(f"copy: got={got!r} reference={ref!r}")
         return 0 if got == ref else 1
+    if case.get("mode") == "fault":
+        got = run_impl_after_fault(case["chunks"], case["k"], spec, case["probe"])
+        want = ref_apply(case["probe"], spec)
+        print(f"after {case['chunks']!r} aborted behind chunk {case['k']}: {case['probe']!r} -> {got!r}, reference {want!r}")
+        return 0 if got == want else 1
+    if case.get("mode") in ("e2e", "e2e_fault"):
+        tmp = ctx.scratch / "replay"
+        tmp.mkdir(exist_ok=True)
+        e2e = E2E(tmp)
+        entry = e2e.generator(case["pps"], spec)
+        if case["mode"] == "e2e":
+            got = e2e.run(entry, case["chunks"])
+            print(f"generator [{case['pps']}] chunks={case['chunks']!r}: got={got!r} reference={ref!r}")
+            return 0 if got == ref else 1
+        k = case["k"]
+        e2e.run(entry, [case["text"][:k], _Bomb(), case["text"][k:]])
+        got = e2e.run(e2e.generator(case["pps"], spec, fresh=True) if case.get("fresh") else entry, [case["probe"]])
+        want = ref_apply(case["probe"], spec)
+        print(f"after a refused rendering of {case['text']!r}: {case['probe']!r} -> {got!r}, reference {want!r}")
+        return 0 if got == want else 1
     got = run_impl(case["chunks"], spec)
     whole = run_impl([case["text"]], spec)
     print(f"chunks={case['chunks']!r}: got={got!r} one-chunk={whole!r} reference={ref!r}")
